@@ -52,6 +52,7 @@ class SimThread:
         self.blocked: Optional[Callable[[], bool]] = None  # parked until this predicate holds (block_until)
         self.in_sched = False  # inside the scheduler: traced code run from a GC finaliser must not yield again
         self.keep_handle = False  # False: the real Thread object is released when the thread ends
+        self.shim = None  # what sqllineage sees as this thread's Thread object (ThreadingShim); same lifetime as .real
         self.real = threading.Thread(target=self._main, name=f"sim-{idx}-{name}", daemon=True)
         self.ctx: dict = {}  # property-specific per-thread context
 
@@ -69,6 +70,7 @@ class SimThread:
             self.in_sched = True
             if not self.keep_handle:
                 self.real = None  # like a program that does not keep its Thread objects around
+                self.shim = None
             self.sched._finished(self)
 
 
@@ -466,14 +468,17 @@ class _ShimThread:
     """What ``threading.enumerate()`` / ``current_thread()`` show of a simulated thread."""
 
     def __init__(self, st: "SimThread"):
-        self._st = st
+        import weakref
+
+        self._st_ref = weakref.ref(st)  # (no cycle: dropping SimThread.shim frees this object at once)
         self.ident = st.ident
         self.native_id = st.ident
         self.name = st.name
         self.daemon = True
 
     def is_alive(self) -> bool:
-        return not self._st.done
+        st = self._st_ref()
+        return st is not None and not st.done
 
     def __repr__(self) -> str:
         return f"<SimThread {self.name} ident={self.ident}>"
@@ -502,11 +507,19 @@ class ThreadingShim:
             return None
         return [x for x in t.sched.threads if not x.done and all(w.done for w in x.wait_for) and not x.ctx.get("foreign")]
 
+    @staticmethod
+    def _obj(x):
+        # one stable object per simulated thread, released when the thread ends unless somebody keeps its handle
+        # (weakref.finalize / WeakKeyDictionary on Thread objects then behave as they do on real ones)
+        if x.shim is None:
+            x.shim = _ShimThread(x)
+        return x.shim
+
     def enumerate(self):
         alive = self._alive()
         if alive is None:
             return threading.enumerate()
-        return [threading.main_thread()] + [_ShimThread(x) for x in alive]
+        return [threading.main_thread()] + [self._obj(x) for x in alive]
 
     def active_count(self):
         alive = self._alive()
@@ -514,7 +527,7 @@ class ThreadingShim:
 
     def current_thread(self):
         t = current()
-        return threading.current_thread() if t is None else _ShimThread(t)
+        return threading.current_thread() if t is None else self._obj(t)
 
 
 class no_preempt:
